@@ -5,9 +5,11 @@ demo passes without / fails with the change, build ok, existing suite passes wit
 import json, os, shutil, subprocess, sys, glob
 ROOT = os.path.dirname(os.path.dirname(os.path.abspath(__file__)))
 kept, rejected = [], []
-for v in sorted(glob.glob("/var/tmp/seed/C*/out/*/verdict.json")):
+for v in sorted(glob.glob("/var/tmp/seed*/C*/out/*/verdict.json")):
     d = os.path.dirname(v)
     pid = d.split("/")[4]; n = d.split("/")[6]
+    rnd = d.split("/")[3].replace("seed", "")          # "" for the first round, "2" for /var/tmp/seed2 ...
+    sid = "%s-%s" % (pid, n) if not rnd else "%s-r%s-%s" % (pid, rnd, n)
     try:
         ver = json.load(open(v))
     except Exception as e:
@@ -15,7 +17,7 @@ for v in sorted(glob.glob("/var/tmp/seed/C*/out/*/verdict.json")):
     ok = ver["demo_without_rc"] == 0 and ver["build_rc"] == 0 and ver["demo_with_rc"] != 0 and str(ver["suite_with_rc"]) == "0"
     if not ok:
         rejected.append((pid, n, "not confirmed: %s" % ver)); continue
-    dst = os.path.join(ROOT, "seeded", "%s-%s" % (pid, n))
+    dst = os.path.join(ROOT, "seeded", sid)
     os.makedirs(dst, exist_ok=True)
     for f in os.listdir(d):
         if f.endswith("_test.go") or f == "patch.diff" or f.endswith("main.go"):
@@ -29,7 +31,7 @@ for v in sorted(glob.glob("/var/tmp/seed/C*/out/*/verdict.json")):
     entry = {"caught_by": caught, "violation_line": ver["violation_line"], "verif_commit": subprocess.run(["git", "-C", ROOT, "rev-parse", "--short", "HEAD"], capture_output=True, text=True).stdout.strip()}
     if not hist or hist[-1] != entry:
         hist.append(entry)
-    meta.update({"property": pid, "seed_id": "%s-%s" % (pid, n),
+    meta.update({"property": pid, "seed_id": sid,
                  "origin": "independent sub-agent given only the property text and a scratch worktree (nothing from /verif)",
                  "confirmed_by_coordinator": {"how": "tools/seedtest.sh in a scratch worktree of /repo HEAD: demonstration passes without the change, fails with it; go build ./... ok; existing suite (go test -vet=off -count=1 ./..., own network namespace) passes with the change; then VERIF_REPO=<scratch> ./check %s quick (thorough if quick exits 0)" % pid,
                                               "verdict": ver},
@@ -37,6 +39,6 @@ for v in sorted(glob.glob("/var/tmp/seed/C*/out/*/verdict.json")):
     json.dump(meta, open(os.path.join(dst, "meta.json"), "w"), indent=1)
     if os.path.exists(os.path.join(d, "replay.json")):
         shutil.copy(os.path.join(d, "replay.json"), os.path.join(dst, "replay_reported_by_check.json"))
-    kept.append((pid, n, caught))
+    kept.append((sid, caught))
 for k in kept: print("kept", *k)
 for r in rejected: print("REJECTED", *r)
